@@ -96,9 +96,11 @@ pub fn spawn(
                                 .map(|seq| seq + 1)
                                 .collect();
 
+                        // `ask`, not `tell`: the watermark has moved before the client is
+                        // answered, so a read that follows the reply sees the write.
                         let _ = config
                             .confirmation_ref
-                            .tell(UpdateConfirmationWithBroadcast {
+                            .ask(UpdateConfirmationWithBroadcast {
                                 partition_id,
                                 versions: confirmation_versions.clone(),
                                 confirmation_count,
